@@ -13,7 +13,7 @@ LEVEL = "model_checking"
 RULE = (
     "banded: every ordered pair of non-empty sequences up to the length bound x listed matrix families (one "
     "listed variant / code embedding per VERIF_SEED) x listed gap penalties x every band (lo, hi) with "
-    "-(n+1) <= lo <= hi <= m+1 (reversed order and max_number in {1, 2} on the listed sub-palettes) x "
+    "-(n+1) <= lo <= hi <= m+1 (reversed order and max_number 1 (thorough: 1, 2) on the listed sub-palettes) x "
     "{semi-global, local}; seeded gapped: pairs x every in-range seed x thresholds x directions x listed "
     "strictly negative penalties, each as full call (max_number 1000), score_only call and, on the listed "
     "sub-palette, max_number=1 and max_table_size in {1, 10}; every out-of-range seed of a one-step frame must "
@@ -58,24 +58,25 @@ def _cfg(tier):
     if tier == "quick":
         return {
             "banded": [
-                # (k1, k2, min_len, max_len(seq1), max_len(seq2), fams, gaps, only pairs with a member of max_len)
+                # k: letters of sequence 1 / 2; len: maximal lengths; long_only: only pairs with a member of maximal length
                 {"k": [2, 2], "len": [3, 3], "fams": ["std", "allneg", "zero", "asym", "negident"],
                  "gaps": [0, -1, -3, (-1, -1), (-2, -1), (0, -2)], "long_only": False},
-                {"k": [2, 2], "len": [4, 4], "fams": ["std", "allneg"], "gaps": [-1, (-2, -1)], "long_only": True},
+                {"k": [2, 2], "len": [4, 4], "fams": ["std"], "gaps": [-1, (-2, -1)], "long_only": True},
                 {"k": [2, 3], "len": [3, 2], "fams": ["rect", "rectneg"], "gaps": [-1, (-2, -1), 0],
                  "long_only": False},
             ],
-            "banded_extra_maxnum_fams": ["std", "allneg"],
+            "banded_extra_maxnum_fams": ["std"],
+            "banded_extra_maxnum": [1],
             "banded_reversed_fams": ["asym", "rect"],
             "gapped": [
-                {"k": [2, 2], "len": [3, 3], "fams": ["std", "allneg", "zero", "asym", "large"], "gaps": I.GAPS_NEG,
+                {"k": [2, 2], "len": [3, 3], "fams": ["std", "allneg", "zero", "asym"], "gaps": I.GAPS_NEG,
                  "long_only": False},
-                {"k": [2, 2], "len": [4, 4], "fams": ["std", "asym"], "gaps": [-1, (-2, -1)], "long_only": True},
+                {"k": [2, 2], "len": [4, 4], "fams": ["std"], "gaps": [-1, (-2, -1)], "long_only": True},
                 {"k": [2, 3], "len": [3, 2], "fams": ["rect"], "gaps": [-1, (-2, -1)], "long_only": False},
             ],
             "gapped_extra_fams": ["std", "rect"],
             "ungapped": [
-                {"k": [2, 2], "len": [4, 4], "fams": ["std", "allneg", "zero", "asym", "large", "negident"]},
+                {"k": [2, 2], "len": [4, 4], "fams": ["std", "allneg", "asym", "large"]},
                 {"k": [3, 3], "len": [3, 3], "fams": ["std", "asym"]},
                 {"k": [2, 3], "len": [3, 3], "fams": ["rect", "rectneg"]},
             ],
@@ -94,6 +95,7 @@ def _cfg(tier):
              "long_only": False},
         ],
         "banded_extra_maxnum_fams": ["std", "allneg", "zero"],
+        "banded_extra_maxnum": [1, 2],
         "banded_reversed_fams": ["asym", "rect"],
         "gapped": [
             {"k": [2, 2], "len": [4, 4], "fams": ["std", "allneg", "zero", "asym", "large"], "gaps": I.GAPS_NEG,
@@ -122,8 +124,10 @@ def bounds(tier):
         return [{**g, "gaps": [I.gap_json(x) for x in g["gaps"]]} if "gaps" in g else g for g in groups]
 
     return {"banded": j(c["banded"]), "gapped": j(c["gapped"]), "ungapped": c["ungapped"],
-            "bands": "every (lo, hi), -(n+1) <= lo <= hi <= m+1; reversed order for families %s; max_number {1,2} "
-                     "for families %s" % (c["banded_reversed_fams"], c["banded_extra_maxnum_fams"]),
+            "bands": "every (lo, hi), -(n+1) <= lo <= hi <= m+1; reversed order for families %s; max_number %s "
+                     "additionally for families %s (first group)" % (c["banded_reversed_fams"],
+                                                                     c["banded_extra_maxnum"],
+                                                                     c["banded_extra_maxnum_fams"]),
             "thresholds": list(THRESHOLDS), "directions": list(DIRECTIONS),
             "seeds": "every in-range seed; out-of-range frame -1..len in each coordinate must raise",
             "max_table_size": [None, 1, 10], "code_width_pairs": 15, "width_len": c["width_len"]}
@@ -389,8 +393,8 @@ def run_banded(shard, ctx):
                     for local in (False, True):
                         check_banded(ctx, env, l1, l2, band, gap, local, 1000, either)
                         if extra_mn and not either:
-                            check_banded(ctx, env, l1, l2, band, gap, local, 1, False)
-                            check_banded(ctx, env, l1, l2, band, gap, local, 2, False)
+                            for mn in c["banded_extra_maxnum"]:
+                                check_banded(ctx, env, l1, l2, band, gap, local, mn, False)
                         if rev and band[0] != band[1]:
                             check_banded(ctx, env, l1, l2, (band[1], band[0]), gap, local, 1000, either)
     _mutated(ctx, env, "align_banded")
